@@ -364,6 +364,7 @@ func (a *zzG10Arena) deploy() {
 	d["use_private_ptr_resolvers"] = false
 	d["local_ptr_upstreams"] = []any{}
 	d["hostsfile_enabled"] = false
+	d["blocked_hosts"] = []any{"version.bind", "id.server", "hostname.bind"}
 	d["ratelimit_whitelist"] = []any{"127.0.0.1", "127.0.0.2", "127.0.0.3", "127.0.0.9"}
 	cs := sub("clients")
 	cs["runtime_sources"] = map[string]any{"whois": false, "arp": false, "rdns": false, "dhcp": false, "hosts": false}
@@ -435,7 +436,13 @@ func (a *zzG10Arena) start() (err error) {
 
 		r := a.do(http.MethodGet, "/control/status", nil)
 		if r.Code == 200 && bytes.Contains(r.Body, []byte(`"running":true`)) {
-			if m, _ := a.query("ready.g10.test", dns.TypeA, "", 300*time.Millisecond); m != nil {
+			// The DNS listeners are up when the TCP one accepts (it is bound
+			// after the UDP one).  No question is asked: with safe browsing
+			// on, an answer would wait for the remote service.
+			c, derr := net.DialTimeout("tcp", fmt.Sprintf("%s:%d", zzG10Host, a.dnsPort), 300*time.Millisecond)
+			if derr == nil {
+				_ = c.Close()
+
 				return nil
 			}
 		}
@@ -1010,4 +1017,1537 @@ func (a *zzG10Arena) request(l zzG10Lab) (method, path string, body []byte, ok b
 	}
 
 	return "", "", nil, false
+}
+
+// ----------------------------------------------------------- abstraction
+
+// zzG10Dig walks nested maps; missing -> nil.
+func zzG10Dig(m any, path ...string) (v any) {
+	v = m
+	for _, k := range path {
+		mm, ok := v.(map[string]any)
+		if !ok {
+			return nil
+		}
+
+		v = mm[k]
+	}
+
+	return v
+}
+
+func zzG10Strs(v any) (l []string) {
+	arr, _ := v.([]any)
+	l = []string{}
+	for _, x := range arr {
+		l = append(l, fmt.Sprint(x))
+	}
+
+	return l
+}
+
+func zzG10Sorted(l []string) (out []string) {
+	out = append([]string{}, l...)
+	sort.Strings(out)
+
+	return out
+}
+
+func zzG10Bool(v any) (b bool) { b, _ = v.(bool); return b }
+
+func zzG10Int(v any) (n int64) {
+	switch x := v.(type) {
+	case float64:
+		return int64(x)
+	case int:
+		return int64(x)
+	case int64:
+		return x
+	case uint64:
+		return int64(x)
+	case string:
+		if d, err := time.ParseDuration(x); err == nil {
+			return d.Milliseconds()
+		}
+
+		n, _ = strconv.ParseInt(x, 10, 64)
+	}
+
+	return n
+}
+
+func zzG10Str(v any) (s string) {
+	if v == nil {
+		return ""
+	}
+
+	return fmt.Sprint(v)
+}
+
+func zzG10OnOff(b bool) (s string) {
+	if b {
+		return "on"
+	}
+
+	return "off"
+}
+
+func zzG10Name(table map[string]int, n int64, prefix string) (s string) {
+	for k, v := range table {
+		if int64(v) == n && strings.HasPrefix(k, prefix) {
+			return k
+		}
+	}
+
+	return fmt.Sprintf("?%d", n)
+}
+
+// zzG10Raw is the concrete form of the settings as one place shows them,
+// already in common units; absOf turns it into the abstract record.
+type zzG10Raw struct {
+	ups, boot, lptr                      []string
+	blkMode, blk4, blk6                  string
+	blkttl, rl, rl4, csize, tmin, tmax   int64
+	utoMs                                int64
+	prot, dnssec, noaaaa, useptr         bool
+	ecsOn, ecsCustom                     bool
+	ecsIP, upmode                        string
+	fen                                  bool
+	fivl                                 int64
+	rules                                []string
+	lists                                map[string]string // url -> on/off (without the background list)
+	sb, par                              bool
+	ss                                   map[string]bool
+	rw                                   [][2]string
+	svcIDs                               []string
+	svcSched                             int // number of days with a range
+	svcTZ                                string
+	allowed, disallowed, hosts           []string
+	clients                              []zzG10M
+	qEnabled, qAnon                      bool
+	qIvl                                 int64
+	qIgn                                 []string
+	sEnabled                             bool
+	sIvl                                 int64
+	sIgn                                 []string
+	lang, theme                          string
+	lang2                                string
+	bad                                  []string
+}
+
+func (a *zzG10Arena) absOf(r *zzG10Raw) (st zzG10M) {
+	st = zzG10M{}
+	upName := func(l []string, none string) string {
+		s := ""
+		for _, u := range l {
+			switch u {
+			case a.upstream("A"):
+				s += "A"
+			case a.upstream("B"):
+				s += "B"
+			case a.upstream("L"):
+				s += "L"
+			case "!!bad upstream!!":
+				s += "bad"
+			default:
+				s += "?" + u
+			}
+		}
+
+		if s == "" {
+			return none
+		}
+
+		return s
+	}
+	st["ups"] = upName(r.ups, "?empty")
+	switch strings.Join(r.boot, ",") {
+	case "9.9.9.10":
+		st["boot"] = "b0"
+	case "149.112.112.10,2620:fe::10":
+		st["boot"] = "b1"
+	case "not an address":
+		st["boot"] = "bad"
+	default:
+		st["boot"] = "?" + strings.Join(r.boot, ",")
+	}
+
+	st["blk"] = r.blkMode
+	if r.blkMode == "custom_ip" {
+		switch r.blk4 + "|" + r.blk6 {
+		case "10.9.8.7|fd00::7":
+			st["blk"] = "custom1"
+		case "10.9.8.8|fd00::8":
+			st["blk"] = "custom2"
+		default:
+			st["blk"] = "?custom " + r.blk4 + "|" + r.blk6
+		}
+	}
+
+	st["blkttl"] = fmt.Sprintf("t%d", r.blkttl)
+	st["prot"] = zzG10OnOff(r.prot)
+	st["rl"] = fmt.Sprint(r.rl)
+	st["rl4"] = fmt.Sprint(r.rl4)
+	switch {
+	case !r.ecsOn && !r.ecsCustom:
+		st["ecs"] = "off"
+	case r.ecsOn && !r.ecsCustom:
+		st["ecs"] = "on"
+	case r.ecsOn && r.ecsCustom && r.ecsIP == "203.0.113.5":
+		st["ecs"] = "custom"
+	default:
+		st["ecs"] = fmt.Sprintf("?%v/%v/%s", r.ecsOn, r.ecsCustom, r.ecsIP)
+	}
+
+	st["dnssec"] = zzG10OnOff(r.dnssec)
+	st["noaaaa"] = zzG10OnOff(r.noaaaa)
+	switch r.csize {
+	case 4194304:
+		st["csize"] = "4m"
+	case 65536:
+		st["csize"] = "64k"
+	default:
+		st["csize"] = fmt.Sprint(r.csize)
+	}
+
+	st["cttl"] = fmt.Sprintf("%d-%d", r.tmin, r.tmax)
+	switch r.upmode {
+	case "", "load_balance":
+		st["upmode"] = "lb"
+	case "parallel":
+		st["upmode"] = "parallel"
+	case "fastest_addr":
+		st["upmode"] = "fastest"
+	default:
+		st["upmode"] = "?" + r.upmode
+	}
+
+	st["lptr"] = upName(r.lptr, "none")
+	st["useptr"] = zzG10OnOff(r.useptr)
+	if r.utoMs%1000 == 0 {
+		st["uto"] = fmt.Sprint(r.utoMs / 1000)
+	} else {
+		st["uto"] = fmt.Sprintf("?%dms", r.utoMs)
+	}
+
+	st["fcfg"] = fmt.Sprintf("%s-%d", zzG10OnOff(r.fen), r.fivl)
+	st["rules"] = "?" + strings.Join(r.rules, " ")
+	for k, v := range zzG10Rules {
+		if strings.Join(v, " ") == strings.Join(r.rules, " ") {
+			st["rules"] = k
+		}
+	}
+
+	lists := zzG10M{"L1": "absent", "L2": "absent"}
+	for u, e := range r.lists {
+		switch u {
+		case a.listPath("1"):
+			lists["L1"] = e
+		case a.listPath("2"):
+			lists["L2"] = e
+		case a.listPath("0"):
+			if e != "on" {
+				r.bad = append(r.bad, "background list "+e)
+			}
+		default:
+			lists["?"+u] = e
+		}
+	}
+
+	if _, ok := r.lists[a.listPath("0")]; !ok {
+		r.bad = append(r.bad, "background list absent")
+	}
+
+	st["lists"] = lists
+	st["sb"] = zzG10OnOff(r.sb)
+	st["par"] = zzG10OnOff(r.par)
+	others := true
+	for _, k := range []string{"bing", "duckduckgo", "ecosia", "pixabay", "yandex", "youtube"} {
+		others = others && r.ss[k]
+	}
+
+	switch {
+	case !others:
+		st["ss"] = fmt.Sprintf("?%v", r.ss)
+	case r.ss["enabled"] && r.ss["google"]:
+		st["ss"] = "all"
+	case r.ss["enabled"]:
+		st["ss"] = "nogoogle"
+	case r.ss["google"]:
+		st["ss"] = "off"
+	default:
+		st["ss"] = "offng"
+	}
+
+	rws := []string{}
+	seen := map[string]bool{}
+	for _, e := range r.rw {
+		id := "?" + e[0] + ">" + e[1]
+		for k, v := range zzG10Rewrites {
+			if v == e {
+				id = k
+			}
+		}
+
+		if !seen[id] {
+			seen[id] = true
+			rws = append(rws, id)
+		}
+	}
+
+	sort.Strings(rws)
+	st["rw"] = rws
+
+	ids := strings.Join(zzG10Sorted(r.svcIDs), ",")
+	switch {
+	case r.svcSched == 0 && ids == "":
+		st["svc"] = "none"
+	case r.svcSched == 0 && ids == "4chan":
+		st["svc"] = "s1"
+	case r.svcSched == 0 && ids == "4chan,500px":
+		st["svc"] = "s12"
+	case r.svcSched == 0 && ids == "500px":
+		st["svc"] = "s2"
+	case r.svcSched == 7 && ids == "4chan":
+		st["svc"] = "s1p"
+	default:
+		st["svc"] = fmt.Sprintf("?%s/%d", ids, r.svcSched)
+	}
+
+	hosts := []string{}
+	for _, h := range r.hosts {
+		dflt := false
+		for _, d := range zzG10DefaultBlockedHosts {
+			dflt = dflt || d == h
+		}
+
+		if !dflt {
+			hosts = append(hosts, h)
+		}
+	}
+
+	acc := strings.Join(zzG10Sorted(r.allowed), ",") + "|" + strings.Join(zzG10Sorted(r.disallowed), ",") + "|" +
+		strings.Join(zzG10Sorted(hosts), ",")
+	switch acc {
+	case "||":
+		st["acc"] = "none"
+	case "|127.0.0.9|":
+		st["acc"] = "dis"
+	case "||acc.g10.test":
+		st["acc"] = "host"
+	case "127.0.0.1,127.0.0.2,127.0.0.3||":
+		st["acc"] = "allow"
+	default:
+		st["acc"] = "?" + acc
+	}
+
+	if len(r.hosts)-len(hosts) != len(zzG10DefaultBlockedHosts) {
+		st["acc"] = "?hosts " + strings.Join(r.hosts, ",")
+	}
+
+	cl := zzG10M{"c1": "absent", "c2": "absent"}
+	for _, c := range r.clients {
+		name := zzG10Str(c["name"])
+		k := strings.TrimPrefix(name, "g10")
+		if _, ok := zzG10ClientAddr[k]; !ok || !strings.HasPrefix(name, "g10") {
+			cl["?"+name] = "present"
+
+			continue
+		}
+
+		idl := strings.Join(zzG10Strs(c["ids"]), ",")
+		ug, ubs := zzG10Bool(c["use_global_settings"]), zzG10Bool(c["use_global_blocked_services"])
+		bs := strings.Join(zzG10Strs(c["blocked_services"]), ",")
+		switch {
+		case idl != zzG10ClientAddr[k]:
+			cl[k] = "?ids " + idl
+		case !ug && !zzG10Bool(c["filtering_enabled"]) && ubs && bs == "":
+			cl[k] = "a"
+		case ug && !ubs && bs == "9gag":
+			cl[k] = "b"
+		default:
+			cl[k] = fmt.Sprintf("?%v/%v/%v/%s", ug, zzG10Bool(c["filtering_enabled"]), ubs, bs)
+		}
+	}
+
+	st["cl"] = cl
+
+	logName := func(enabled, anon bool, ivl int64, ign []string, dflt int64) string {
+		n := 0
+		s := "def"
+		if !enabled {
+			n++
+			s = "off"
+		}
+
+		if anon {
+			n++
+			s = "anon"
+		}
+
+		if ivl != dflt {
+			n++
+			s = zzG10Name(zzG10Num, ivl, "ivl")
+		}
+
+		switch strings.Join(ign, ",") {
+		case "":
+		case "ign.g10.test":
+			n++
+			s = "ign"
+		default:
+			return "?ign " + strings.Join(ign, ",")
+		}
+
+		if n > 1 {
+			return fmt.Sprintf("?%v/%v/%d/%v", enabled, anon, ivl, ign)
+		}
+
+		return s
+	}
+	st["qlog"] = logName(r.qEnabled, r.qAnon, r.qIvl, r.qIgn, 7776000000)
+	st["stats"] = logName(r.sEnabled, false, r.sIvl, r.sIgn, 86400000)
+	st["lang"] = r.lang
+	if r.lang == "" {
+		st["lang"] = "none"
+	}
+
+	if r.lang2 != r.lang {
+		st["lang"] = "?" + r.lang + "/" + r.lang2
+	}
+
+	st["theme"] = r.theme
+
+	return st
+}
+
+// reported asks every GET endpoint of the settings families.
+func (a *zzG10Arena) reported() (st zzG10M, err error) {
+	get := func(p string) (v any, e error) {
+		r := a.do(http.MethodGet, p, nil)
+		if r.Code != 200 {
+			return nil, fmt.Errorf("GET %s: %d %s %s", p, r.Code, r.Err, r.Body)
+		}
+
+		if e = json.Unmarshal(r.Body, &v); e != nil {
+			return nil, fmt.Errorf("GET %s: %v", p, e)
+		}
+
+		return v, nil
+	}
+
+	var d, f, sb, par, ss, rw, svc, acc, cl, ql, sc, prof, lng any
+	for _, g := range []struct {
+		p string
+		v *any
+	}{{"/control/dns_info", &d}, {"/control/filtering/status", &f}, {"/control/safebrowsing/status", &sb},
+		{"/control/parental/status", &par}, {"/control/safesearch/status", &ss}, {"/control/rewrite/list", &rw},
+		{"/control/blocked_services/get", &svc}, {"/control/access/list", &acc}, {"/control/clients", &cl},
+		{"/control/querylog/config", &ql}, {"/control/stats/config", &sc}, {"/control/profile", &prof},
+		{"/control/i18n/current_language", &lng}} {
+		if *g.v, err = get(g.p); err != nil {
+			return nil, err
+		}
+	}
+
+	r := &zzG10Raw{
+		ups: zzG10Strs(zzG10Dig(d, "upstream_dns")), boot: zzG10Strs(zzG10Dig(d, "bootstrap_dns")),
+		lptr:    zzG10Strs(zzG10Dig(d, "local_ptr_upstreams")),
+		blkMode: zzG10Str(zzG10Dig(d, "blocking_mode")), blk4: zzG10Str(zzG10Dig(d, "blocking_ipv4")),
+		blk6:   zzG10Str(zzG10Dig(d, "blocking_ipv6")),
+		blkttl: zzG10Int(zzG10Dig(d, "blocked_response_ttl")), rl: zzG10Int(zzG10Dig(d, "ratelimit")),
+		rl4:   zzG10Int(zzG10Dig(d, "ratelimit_subnet_len_ipv4")),
+		csize: zzG10Int(zzG10Dig(d, "cache_size")), tmin: zzG10Int(zzG10Dig(d, "cache_ttl_min")),
+		tmax: zzG10Int(zzG10Dig(d, "cache_ttl_max")), utoMs: 1000 * zzG10Int(zzG10Dig(d, "upstream_timeout")),
+		prot: zzG10Bool(zzG10Dig(d, "protection_enabled")), dnssec: zzG10Bool(zzG10Dig(d, "dnssec_enabled")),
+		noaaaa: zzG10Bool(zzG10Dig(d, "disable_ipv6")), useptr: zzG10Bool(zzG10Dig(d, "use_private_ptr_resolvers")),
+		ecsOn: zzG10Bool(zzG10Dig(d, "edns_cs_enabled")), ecsCustom: zzG10Bool(zzG10Dig(d, "edns_cs_use_custom")),
+		ecsIP: zzG10Str(zzG10Dig(d, "edns_cs_custom_ip")), upmode: zzG10Str(zzG10Dig(d, "upstream_mode")),
+		fen: zzG10Bool(zzG10Dig(f, "enabled")), fivl: zzG10Int(zzG10Dig(f, "interval")),
+		rules: zzG10Strs(zzG10Dig(f, "user_rules")), lists: map[string]string{},
+		sb: zzG10Bool(zzG10Dig(sb, "enabled")), par: zzG10Bool(zzG10Dig(par, "enabled")), ss: map[string]bool{},
+		svcIDs: zzG10Strs(zzG10Dig(svc, "ids")), svcTZ: zzG10Str(zzG10Dig(svc, "schedule", "time_zone")),
+		allowed: zzG10Strs(zzG10Dig(acc, "allowed_clients")), disallowed: zzG10Strs(zzG10Dig(acc, "disallowed_clients")),
+		hosts:    zzG10Strs(zzG10Dig(acc, "blocked_hosts")),
+		qEnabled: zzG10Bool(zzG10Dig(ql, "enabled")), qAnon: zzG10Bool(zzG10Dig(ql, "anonymize_client_ip")),
+		qIvl: zzG10Int(zzG10Dig(ql, "interval")), qIgn: zzG10Strs(zzG10Dig(ql, "ignored")),
+		sEnabled: zzG10Bool(zzG10Dig(sc, "enabled")), sIvl: zzG10Int(zzG10Dig(sc, "interval")),
+		sIgn: zzG10Strs(zzG10Dig(sc, "ignored")),
+		lang: zzG10Str(zzG10Dig(prof, "language")), theme: zzG10Str(zzG10Dig(prof, "theme")),
+		lang2: zzG10Str(zzG10Dig(lng, "language")),
+	}
+	if !r.ecsCustom {
+		r.ecsIP = ""
+	}
+
+	for _, x := range func() []any { l, _ := zzG10Dig(f, "filters").([]any); return l }() {
+		r.lists[zzG10Str(zzG10Dig(x, "url"))] = zzG10OnOff(zzG10Bool(zzG10Dig(x, "enabled")))
+	}
+
+	if m, ok := ss.(map[string]any); ok {
+		for k, v := range m {
+			r.ss[k] = zzG10Bool(v)
+		}
+	}
+
+	if l, ok := rw.([]any); ok {
+		for _, x := range l {
+			r.rw = append(r.rw, [2]string{zzG10Str(zzG10Dig(x, "domain")), zzG10Str(zzG10Dig(x, "answer"))})
+		}
+	}
+
+	r.svcSched = zzG10Days(zzG10Dig(svc, "schedule"))
+	if l, ok := zzG10Dig(cl, "clients").([]any); ok {
+		for _, x := range l {
+			if m, isMap := x.(map[string]any); isMap {
+				r.clients = append(r.clients, m)
+			}
+		}
+	}
+
+	st = a.absOf(r)
+	if len(r.bad) > 0 {
+		st["_bad"] = strings.Join(r.bad, "; ")
+	}
+
+	return st, nil
+}
+
+func zzG10Days(sched any) (n int) {
+	m, _ := sched.(map[string]any)
+	for _, d := range []string{"sun", "mon", "tue", "wed", "thu", "fri", "sat"} {
+		if dm, ok := m[d].(map[string]any); ok && zzG10Int(dm["end"]) > zzG10Int(dm["start"]) {
+			n++
+		}
+	}
+
+	return n
+}
+
+// fileState parses AdGuardHome.yaml (yaml.v3 into a map, no struct of the
+// server) and projects the same components.
+func (a *zzG10Arena) fileState() (st zzG10M, err error) {
+	b, err := os.ReadFile(a.confPath())
+	if err != nil {
+		return nil, err
+	}
+
+	var y any
+	if err = yaml.Unmarshal(b, &y); err != nil {
+		return nil, fmt.Errorf("configuration file does not parse: %w", err)
+	}
+
+	r := &zzG10Raw{
+		ups: zzG10Strs(zzG10Dig(y, "dns", "upstream_dns")), boot: zzG10Strs(zzG10Dig(y, "dns", "bootstrap_dns")),
+		lptr:    zzG10Strs(zzG10Dig(y, "dns", "local_ptr_upstreams")),
+		blkMode: zzG10Str(zzG10Dig(y, "filtering", "blocking_mode")), blk4: zzG10Str(zzG10Dig(y, "filtering", "blocking_ipv4")),
+		blk6:   zzG10Str(zzG10Dig(y, "filtering", "blocking_ipv6")),
+		blkttl: zzG10Int(zzG10Dig(y, "filtering", "blocked_response_ttl")), rl: zzG10Int(zzG10Dig(y, "dns", "ratelimit")),
+		rl4:   zzG10Int(zzG10Dig(y, "dns", "ratelimit_subnet_len_ipv4")),
+		csize: zzG10Int(zzG10Dig(y, "dns", "cache_size")), tmin: zzG10Int(zzG10Dig(y, "dns", "cache_ttl_min")),
+		tmax: zzG10Int(zzG10Dig(y, "dns", "cache_ttl_max")), utoMs: zzG10Int(zzG10Dig(y, "dns", "upstream_timeout")),
+		prot: zzG10Bool(zzG10Dig(y, "filtering", "protection_enabled")), dnssec: zzG10Bool(zzG10Dig(y, "dns", "enable_dnssec")),
+		noaaaa: zzG10Bool(zzG10Dig(y, "dns", "aaaa_disabled")), useptr: zzG10Bool(zzG10Dig(y, "dns", "use_private_ptr_resolvers")),
+		ecsOn:     zzG10Bool(zzG10Dig(y, "dns", "edns_client_subnet", "enabled")),
+		ecsCustom: zzG10Bool(zzG10Dig(y, "dns", "edns_client_subnet", "use_custom")),
+		ecsIP:     zzG10Str(zzG10Dig(y, "dns", "edns_client_subnet", "custom_ip")), upmode: zzG10Str(zzG10Dig(y, "dns", "upstream_mode")),
+		fen: zzG10Bool(zzG10Dig(y, "filtering", "filtering_enabled")), fivl: zzG10Int(zzG10Dig(y, "filtering", "filters_update_interval")),
+		rules: zzG10Strs(zzG10Dig(y, "user_rules")), lists: map[string]string{},
+		sb: zzG10Bool(zzG10Dig(y, "filtering", "safebrowsing_enabled")), par: zzG10Bool(zzG10Dig(y, "filtering", "parental_enabled")),
+		ss:     map[string]bool{},
+		svcIDs: zzG10Strs(zzG10Dig(y, "filtering", "blocked_services", "ids")),
+		svcTZ:  zzG10Str(zzG10Dig(y, "filtering", "blocked_services", "schedule", "time_zone")),
+		allowed: zzG10Strs(zzG10Dig(y, "dns", "allowed_clients")), disallowed: zzG10Strs(zzG10Dig(y, "dns", "disallowed_clients")),
+		hosts:    zzG10Strs(zzG10Dig(y, "dns", "blocked_hosts")),
+		qEnabled: zzG10Bool(zzG10Dig(y, "querylog", "enabled")), qAnon: zzG10Bool(zzG10Dig(y, "dns", "anonymize_client_ip")),
+		qIvl: zzG10Int(zzG10Dig(y, "querylog", "interval")), qIgn: zzG10Strs(zzG10Dig(y, "querylog", "ignored")),
+		sEnabled: zzG10Bool(zzG10Dig(y, "statistics", "enabled")), sIvl: zzG10Int(zzG10Dig(y, "statistics", "interval")),
+		sIgn: zzG10Strs(zzG10Dig(y, "statistics", "ignored")),
+		lang: zzG10Str(zzG10Dig(y, "language")), theme: zzG10Str(zzG10Dig(y, "theme")),
+	}
+	r.lang2 = r.lang
+	if !r.ecsCustom {
+		r.ecsIP = ""
+	}
+
+	if l, ok := zzG10Dig(y, "filters").([]any); ok {
+		for _, x := range l {
+			r.lists[zzG10Str(zzG10Dig(x, "url"))] = zzG10OnOff(zzG10Bool(zzG10Dig(x, "enabled")))
+		}
+	}
+
+	if m, ok := zzG10Dig(y, "filtering", "safe_search").(map[string]any); ok {
+		for k, v := range m {
+			r.ss[k] = zzG10Bool(v)
+		}
+	}
+
+	if l, ok := zzG10Dig(y, "filtering", "rewrites").([]any); ok {
+		for _, x := range l {
+			r.rw = append(r.rw, [2]string{zzG10Str(zzG10Dig(x, "domain")), zzG10Str(zzG10Dig(x, "answer"))})
+		}
+	}
+
+	r.svcSched = zzG10YAMLDays(zzG10Dig(y, "filtering", "blocked_services", "schedule"))
+	if l, ok := zzG10Dig(y, "clients", "persistent").([]any); ok {
+		for _, x := range l {
+			m, isMap := x.(map[string]any)
+			if !isMap {
+				continue
+			}
+
+			c := zzG10M{"name": m["name"], "ids": m["ids"], "use_global_settings": m["use_global_settings"],
+				"filtering_enabled": m["filtering_enabled"], "use_global_blocked_services": m["use_global_blocked_services"],
+				"blocked_services": zzG10Dig(m, "blocked_services", "ids")}
+			r.clients = append(r.clients, c)
+		}
+	}
+
+	st = a.absOf(r)
+	if len(r.bad) > 0 {
+		st["_bad"] = strings.Join(r.bad, "; ")
+	}
+
+	return st, nil
+}
+
+func zzG10YAMLDays(sched any) (n int) {
+	m, _ := sched.(map[string]any)
+	for _, d := range []string{"sun", "mon", "tue", "wed", "thu", "fri", "sat"} {
+		if dm, ok := m[d].(map[string]any); ok && zzG10Int(dm["end"]) > zzG10Int(dm["start"]) {
+			n++
+		}
+	}
+
+	return n
+}
+
+func zzG10Canon(v any) (s string) {
+	b, _ := json.Marshal(v)
+
+	return string(b)
+}
+
+// ----------------------------------------------------------------- effects
+
+// zzG10MockAnswer tells whether a signature is an answer of one of the mock
+// upstreams (i.e. the question was forwarded, not answered locally).
+func zzG10Forwarded(sig string) (ok bool) {
+	return strings.Contains(sig, "A=192.0.2.") || strings.Contains(sig, "AAAA=2001:db8::")
+}
+
+// effects checks that what DNS clients experience is what the settings st
+// (as REPORTED by the server) say.  It returns one line per component whose
+// observable behaviour contradicts its reported value.  Components whose effect
+// cannot be seen in the current settings (e.g. the blocking mode while
+// protection is off) are skipped: see notes/G10.md for the table.
+func (a *zzG10Arena) effects(st zzG10M) (bad []string) {
+	s := func(c string) string { v, _ := st[c].(string); return v }
+	sub := func(c, k string) string { m, _ := st[c].(zzG10M); v, _ := m[k].(string); return v }
+	known := func(c string) bool { return !strings.HasPrefix(s(c), "?") && s(c) != "bad" }
+	miss := func(c, want, got string) { bad = append(bad, fmt.Sprintf("%s=%s: expected %s, saw %s", c, zzG10Canon(st[c]), want, got)) }
+
+	// Safe browsing and parental control ask a remote service for every
+	// name: no DNS probes at all then.
+	if s("sb") != "off" || s("par") != "off" {
+		return nil
+	}
+
+	short := 120 * time.Millisecond
+	// blocked reports whether name is answered locally (blocked) for src.
+	sigOf := func(name string, qt uint16, src string) string { return zzG10Sig(a.ask(name, qt, src)) }
+	fen := strings.HasPrefix(s("fcfg"), "on-")
+	filt := s("prot") == "on" && fen && known("prot") && known("fcfg")
+
+	// Upstream side.
+	if known("ups") {
+		name := a.fresh("u")
+		sig := sigOf(name, dns.TypeA, "")
+		sawA, sawB := a.mA.saw(name), a.mB.saw(name)
+		got := ""
+		if sawA.n > 0 {
+			got += "A"
+		}
+
+		if sawB.n > 0 {
+			got += "B"
+		}
+
+		if got != s("ups") || !zzG10Forwarded(sig) {
+			miss("ups", "forwarded to "+s("ups"), "forwarded to '"+got+"' answer "+sig)
+		} else {
+			if known("csize") {
+				_ = sigOf(name, dns.TypeA, "")
+				n := a.mA.saw(name).n + a.mB.saw(name).n
+				want := 1
+				if s("csize") == "0" {
+					want = 2
+				}
+
+				if n != want {
+					miss("csize", fmt.Sprintf("%d upstream exchanges for a repeated question", want), fmt.Sprint(n))
+				}
+			}
+		}
+
+		if known("noaaaa") {
+			name = a.fresh("v")
+			sig = sigOf(name, dns.TypeAAAA, "")
+			if zzG10Forwarded(sig) != (s("noaaaa") == "off") {
+				miss("noaaaa", "AAAA forwarded iff off", sig)
+			}
+		}
+	}
+
+	// Protection / filtering switch, blocking mode, TTL.
+	if known("prot") && known("fcfg") {
+		m := a.ask("blk0.g10.test", dns.TypeA, "")
+		sig := zzG10Sig(m)
+		blocked := !zzG10Forwarded(sig)
+		if blocked != filt {
+			c := "prot"
+			if s("prot") == "on" {
+				c = "fcfg"
+			}
+
+			miss(c, fmt.Sprintf("background list blocks=%v", filt), sig)
+		} else if filt && known("blk") {
+			want := map[string]string{"default": "A=0.0.0.0", "null_ip": "A=0.0.0.0", "nxdomain": "rc=NXDOMAIN",
+				"refused": "rc=REFUSED", "custom1": "A=10.9.8.7", "custom2": "A=10.9.8.8"}[s("blk")]
+			if sig != want {
+				miss("blk", want, sig)
+			} else if strings.HasPrefix(sig, "A=") && known("blkttl") && len(m.Answer) == 1 {
+				if ttl := fmt.Sprintf("t%d", m.Answer[0].Header().Ttl); ttl != s("blkttl") {
+					miss("blkttl", s("blkttl"), ttl)
+				}
+			}
+		}
+	}
+
+	if filt {
+		if known("rules") {
+			got := ""
+			for _, n := range []string{"1", "2"} {
+				if !zzG10Forwarded(sigOf("u"+n+".g10.test", dns.TypeA, "")) {
+					got += n
+				}
+			}
+
+			want := map[string]string{"none": "", "r1": "1", "r12": "12", "r2": "2"}[s("rules")]
+			if got != want {
+				miss("rules", "blocked user names '"+want+"'", "'"+got+"'")
+			}
+		}
+
+		for _, n := range []string{"1", "2"} {
+			e := sub("lists", "L"+n)
+			if e == "" {
+				continue
+			}
+
+			sig := sigOf("l"+n+".g10.test", dns.TypeA, "")
+			if !zzG10Forwarded(sig) != (e == "on") {
+				miss("lists", fmt.Sprintf("L%s blocks=%v", n, e == "on"), sig)
+			}
+		}
+
+		if known("ss") {
+			bing := strings.Contains(sigOf("www.bing.com", dns.TypeA, ""), "CNAME=strict.bing.com.")
+			goog := strings.Contains(sigOf("www.google.com", dns.TypeA, ""), "CNAME=forcesafesearch.google.com.")
+			wb := s("ss") == "all" || s("ss") == "nogoogle"
+			wg := s("ss") == "all"
+			if bing != wb || goog != wg {
+				miss("ss", fmt.Sprintf("bing=%v google=%v", wb, wg), fmt.Sprintf("bing=%v google=%v", bing, goog))
+			}
+		}
+
+		if known("svc") {
+			got := ""
+			if !zzG10Forwarded(sigOf("4chan.org", dns.TypeA, "")) {
+				got += "1"
+			}
+
+			if !zzG10Forwarded(sigOf("500px.com", dns.TypeA, "")) {
+				got += "2"
+			}
+
+			want := map[string]string{"none": "", "s1": "1", "s12": "12", "s2": "2", "s1p": ""}[s("svc")]
+			if got != want {
+				miss("svc", "blocked services '"+want+"'", "'"+got+"'")
+			}
+		}
+
+		for k, addr := range zzG10ClientAddr {
+			v := sub("cl", k)
+			if v == "" || strings.HasPrefix(v, "?") {
+				continue
+			}
+
+			b0 := !zzG10Forwarded(sigOf("blk0.g10.test", dns.TypeA, addr))
+			gag := !zzG10Forwarded(sigOf("9gag.com", dns.TypeA, addr))
+			if b0 != (v != "a") || gag != (v == "b") {
+				miss("cl", fmt.Sprintf("%s=%s: list blocks=%v service blocks=%v", k, v, v != "a", v == "b"),
+					fmt.Sprintf("list blocks=%v service blocks=%v", b0, gag))
+			}
+		}
+	}
+
+	if s("prot") == "on" {
+		rws, _ := st["rw"].([]string)
+		for id, e := range zzG10Rewrites {
+			has := false
+			for _, x := range rws {
+				has = has || x == id
+			}
+
+			sig := sigOf(e[0], dns.TypeA, "")
+			if (sig == "A="+e[1]) != has {
+				miss("rw", fmt.Sprintf("%s present=%v", id, has), sig)
+			}
+		}
+	}
+
+	// Access lists: a refused client / name gets no usable answer.
+	if known("acc") {
+		denied := func(name, src string, expect bool) (got bool, sig string) {
+			var m *dns.Msg
+			if expect {
+				m, _ = a.query(name, dns.TypeA, src, short)
+			} else {
+				m = a.ask(name, dns.TypeA, src)
+			}
+
+			sig = zzG10Sig(m)
+
+			return !zzG10Forwarded(sig), sig
+		}
+
+		w9 := s("acc") == "dis" || s("acc") == "allow"
+		if got, sig := denied(a.fresh("n"), "127.0.0.9", w9); got != w9 {
+			miss("acc", fmt.Sprintf("client 127.0.0.9 denied=%v", w9), sig)
+		}
+
+		wh := s("acc") == "host"
+		if got, sig := denied("acc.g10.test", "", wh); got != wh {
+			miss("acc", fmt.Sprintf("blocked host denied=%v", wh), sig)
+		}
+	}
+
+	// Query log and statistics.
+	if known("qlog") {
+		t0 := time.Now().Add(-50 * time.Millisecond)
+		name := a.fresh("q")
+		_ = sigOf(name, dns.TypeA, "")
+		_ = sigOf("ign.g10.test", dns.TypeA, "")
+		find := func(n string) (found bool, client string) {
+			r := a.do(http.MethodGet, "/control/querylog?limit=20&search="+n, nil)
+			var v any
+			_ = json.Unmarshal(r.Body, &v)
+			l, _ := zzG10Dig(v, "data").([]any)
+			for _, e := range l {
+				ts, err := time.Parse(time.RFC3339Nano, zzG10Str(zzG10Dig(e, "time")))
+				if err == nil && ts.After(t0) && zzG10Str(zzG10Dig(e, "question", "name")) == n {
+					return true, zzG10Str(zzG10Dig(e, "client"))
+				}
+			}
+
+			return false, ""
+		}
+
+		found, client := find(name)
+		ign, _ := find("ign.g10.test")
+		wantFound := s("qlog") != "off"
+		wantClient := "127.0.0.1"
+		if s("qlog") == "anon" {
+			wantClient = "127.0.0.0"
+		}
+
+		switch {
+		case found != wantFound:
+			miss("qlog", fmt.Sprintf("logged=%v", wantFound), fmt.Sprintf("logged=%v", found))
+		case found && client != wantClient:
+			miss("qlog", "client "+wantClient, "client "+client)
+		case wantFound && ign != (s("qlog") != "ign"):
+			miss("qlog", fmt.Sprintf("ignored name logged=%v", s("qlog") != "ign"), fmt.Sprintf("logged=%v", ign))
+		}
+	}
+
+	if known("stats") {
+		count := func() int64 {
+			r := a.do(http.MethodGet, "/control/stats", nil)
+			var v any
+			_ = json.Unmarshal(r.Body, &v)
+
+			return zzG10Int(zzG10Dig(v, "num_dns_queries"))
+		}
+
+		n0 := count()
+		_ = sigOf(a.fresh("s"), dns.TypeA, "")
+		n1 := count()
+		if (n1 > n0) != (s("stats") != "off") {
+			miss("stats", fmt.Sprintf("counting=%v", s("stats") != "off"), fmt.Sprintf("%d -> %d", n0, n1))
+		}
+	}
+
+	// Private reverse DNS.
+	if known("useptr") && known("lptr") && !(s("useptr") == "on" && s("lptr") != "L") {
+		a.seq++
+		name := fmt.Sprintf("%d.%d.168.192.in-addr.arpa", a.seq%250+1, (a.seq/250)%250)
+		_ = sigOf(name, dns.TypePTR, "")
+		saw := a.mL.saw(name).n > 0
+		want := s("useptr") == "on" && s("lptr") == "L"
+		if saw != want {
+			miss("useptr", fmt.Sprintf("private PTR to local resolver=%v", want), fmt.Sprint(saw))
+		}
+	}
+
+	return bad
+}
+
+// zzG10Obs is what the harness sees at a request boundary.
+type zzG10Obs struct {
+	Rep    zzG10M   `json:"rep"`
+	File   zzG10M   `json:"file"`
+	EffBad []string `json:"effbad"`
+	Err    string   `json:"err,omitempty"`
+}
+
+// observe projects the three places.  Effects that lag (the filtering engine
+// is rebuilt in the background) are given up to settle to show.
+func (a *zzG10Arena) observe() (o zzG10Obs) {
+	var err error
+	if o.Rep, err = a.reported(); err != nil {
+		o.Err = "reported: " + err.Error()
+
+		return o
+	}
+
+	if o.File, err = a.fileState(); err != nil {
+		o.Err = "file: " + err.Error()
+
+		return o
+	}
+
+	o.EffBad = []string{}
+	if os.Getenv("VERIF_G10_NOEFFECTS") != "" {
+		return o
+	}
+
+	deadline := time.Now().Add(time.Duration(zzG10EnvInt("VERIF_G10_SETTLE_MS", 2500)) * time.Millisecond)
+	for {
+		o.EffBad = a.effects(o.Rep)
+		if len(o.EffBad) == 0 || time.Now().After(deadline) {
+			break
+		}
+
+		time.Sleep(25 * time.Millisecond)
+	}
+
+	if o.EffBad == nil {
+		o.EffBad = []string{}
+	}
+
+	return o
+}
+
+// -------------------------------------------------------------------- steps
+
+// zzG10Step is the record of one executed label.
+type zzG10Step struct {
+	Lab  zzG10Lab `json:"lab"`
+	Cls  string   `json:"cls"`
+	Code int      `json:"code"`
+	Body string   `json:"body,omitempty"`
+	Obs  zzG10Obs `json:"obs"`
+}
+
+func zzG10Cls(code int) (cls string) {
+	switch {
+	case code >= 200 && code < 300:
+		return "ok"
+	case code >= 400 && code < 600:
+		return "rej"
+	default:
+		return fmt.Sprintf("err%d", code)
+	}
+}
+
+// exec runs one label against the deployment and observes.
+func (a *zzG10Arena) exec(l zzG10Lab) (st zzG10Step) {
+	st.Lab = l
+	switch l.Op {
+	case "restart":
+		st.Cls = "boot"
+		if err := a.stop(); err != nil {
+			st.Cls = "stopfail"
+			st.Body = err.Error()
+		}
+
+		if err := a.start(); err != nil {
+			st.Cls = "bootfail"
+			st.Body = err.Error()
+
+			return st
+		}
+	case "crash":
+		st.Cls = "boot"
+		a.kill()
+		if err := a.start(); err != nil {
+			st.Cls = "bootfail"
+			st.Body = err.Error()
+
+			return st
+		}
+	case "crashduring":
+		st.Cls = "boot"
+		method, path, body, ok := a.request(zzG10Lab{Op: l.X, C: l.C, V: l.V, W: l.W})
+		if !ok {
+			st.Cls = "nolabel"
+
+			return st
+		}
+
+		done := make(chan struct{})
+		go func() { defer close(done); _ = a.do(method, path, body) }()
+		// Requests take between a millisecond and (dns_config) a good 100 ms.
+		d := time.Duration(a.rng.Intn(3000)) * time.Microsecond
+		if a.rng.Intn(3) == 0 {
+			d = time.Duration(a.rng.Intn(130)) * time.Millisecond
+		}
+
+		select {
+		case <-done:
+		case <-time.After(d):
+		}
+
+		a.kill()
+		<-done
+		if err := a.start(); err != nil {
+			st.Cls = "bootfail"
+			st.Body = err.Error()
+
+			return st
+		}
+	default:
+		method, path, body, ok := a.request(l)
+		if !ok {
+			st.Cls = "nolabel"
+
+			return st
+		}
+
+		r := a.do(method, path, body)
+		st.Code = r.Code
+		st.Cls = zzG10Cls(r.Code)
+		if st.Cls != "ok" {
+			st.Body = strings.TrimSpace(string(r.Body)) + r.Err
+			if len(st.Body) > 300 {
+				st.Body = st.Body[:300]
+			}
+		}
+	}
+
+	st.Obs = a.observe()
+
+	return st
+}
+
+// fresh deployment, started.
+func (a *zzG10Arena) redeploy() (err error) {
+	a.deploy()
+
+	return a.start()
+}
+
+// TestZZVerifG10Script replays histories from a fresh deployment each:
+// VERIF_G10_SCRIPTS names a file of {"id":..,"labs":[label...]} lines; every
+// step with its observation goes to VERIF_G10_OUT.
+func TestZZVerifG10Script(t *testing.T) {
+	if os.Getenv("VERIF_G10_SCRIPTS") == "" {
+		t.Skip("no VERIF_G10_SCRIPTS")
+	}
+
+	out := zzNewWriter(t, "VERIF_G10_OUT")
+	defer out.close()
+
+	type script struct {
+		ID   string     `json:"id"`
+		Labs []zzG10Lab `json:"labs"`
+	}
+
+	var scripts []script
+	zzReadNDJSON(t, "VERIF_G10_SCRIPTS", func(line []byte) {
+		s := script{}
+		if err := json.Unmarshal(line, &s); err != nil {
+			t.Fatalf("script: %v", err)
+		}
+
+		scripts = append(scripts, s)
+	})
+
+	nPar := zzG10EnvInt("VERIF_G10_PAR", 4)
+	var mu sync.Mutex
+	next := 0
+	var wg sync.WaitGroup
+	for w := 0; w < nPar && w < len(scripts); w++ {
+		wg.Add(1)
+		go func(w int) {
+			defer wg.Done()
+
+			a := zzG10NewArena(t, 100+w, zzSeed())
+			defer a.destroy()
+
+			for {
+				mu.Lock()
+				i := next
+				next++
+				mu.Unlock()
+				if i >= len(scripts) {
+					return
+				}
+
+				s := scripts[i]
+				var rows []any
+				if err := a.redeploy(); err != nil {
+					rows = append(rows, zzG10M{"id": s.ID, "i": -1, "err": err.Error()})
+				} else {
+					rows = append(rows, zzG10M{"id": s.ID, "i": -1, "obs": a.observe()})
+					for j, l := range s.Labs {
+						st := a.exec(l)
+						rows = append(rows, zzG10M{"id": s.ID, "i": j, "step": st})
+						if strings.HasSuffix(st.Cls, "fail") {
+							break
+						}
+					}
+				}
+
+				mu.Lock()
+				for _, r := range rows {
+					out.put(r)
+				}
+				mu.Unlock()
+			}
+		}(w)
+	}
+
+	wg.Wait()
+}
+
+// ------------------------------------------------------------- direction A
+
+type zzG10Out struct {
+	Cls string `json:"cls"`
+	Dst int    `json:"dst"`
+}
+
+type zzG10Vec struct {
+	ID     int        `json:"id"`
+	Src    int        `json:"src"`
+	Lab    zzG10Lab   `json:"lab"`
+	Outs   []zzG10Out `json:"outs"`
+	Target bool       `json:"target"`
+	taken  bool
+}
+
+type zzG10Graph struct {
+	Init   int         `json:"init"`
+	States []zzG10M    `json:"states"`
+	Vecs   []*zzG10Vec `json:"vecs"`
+	canon  []string
+	bySrc  map[int][]*zzG10Vec
+	mu     sync.Mutex
+}
+
+func zzG10LoadGraph(t testing.TB, env string) (g *zzG10Graph) {
+	b, err := os.ReadFile(os.Getenv(env))
+	if err != nil {
+		t.Fatalf("graph: %v", err)
+	}
+
+	g = &zzG10Graph{bySrc: map[int][]*zzG10Vec{}}
+	if err = json.Unmarshal(b, g); err != nil {
+		t.Fatalf("graph: %v", err)
+	}
+
+	for _, s := range g.States {
+		g.canon = append(g.canon, zzG10CanonState(s))
+	}
+
+	for _, v := range g.Vecs {
+		g.bySrc[v.Src] = append(g.bySrc[v.Src], v)
+	}
+
+	return g
+}
+
+// zzG10CanonState is the canonical text of an abstract settings record
+// (arrays of names sorted; keys sorted by encoding/json).
+func zzG10CanonState(s zzG10M) (c string) {
+	m := zzG10M{}
+	for k, v := range s {
+		if k == "_bad" {
+			continue
+		}
+
+		switch l := v.(type) {
+		case []any:
+			m[k] = zzG10Sorted(zzG10Strs(l))
+		case []string:
+			m[k] = zzG10Sorted(l)
+		default:
+			m[k] = v
+		}
+	}
+
+	return zzG10Canon(m)
+}
+
+// pick chooses the next vector to execute from state cur: a target nobody has
+// taken yet, else the first step of a shortest path to a state that has one.
+func (g *zzG10Graph) pick(cur int, rng *rand.Rand, stop bool) (v *zzG10Vec) {
+	g.mu.Lock()
+	defer g.mu.Unlock()
+
+	if stop {
+		return nil
+	}
+
+	free := func(s int) (l []*zzG10Vec) {
+		for _, x := range g.bySrc[s] {
+			if x.Target && !x.taken {
+				l = append(l, x)
+			}
+		}
+
+		return l
+	}
+
+	if l := free(cur); len(l) > 0 {
+		v = l[rng.Intn(len(l))]
+		v.taken = true
+
+		return v
+	}
+
+	// Breadth-first over the vectors with one outcome.
+	first := map[int]*zzG10Vec{cur: nil}
+	queue := []int{cur}
+	for len(queue) > 0 {
+		s := queue[0]
+		queue = queue[1:]
+		if s != cur && len(free(s)) > 0 {
+			v = first[s]
+			v.taken = true
+
+			return v
+		}
+
+		for _, x := range g.bySrc[s] {
+			if len(x.Outs) != 1 || x.Outs[0].Dst == s || x.Lab.Op == "crashduring" {
+				continue
+			}
+
+			d := x.Outs[0].Dst
+			if _, seen := first[d]; seen {
+				continue
+			}
+
+			if s == cur {
+				first[d] = x
+			} else {
+				first[d] = first[s]
+			}
+
+			queue = append(queue, d)
+		}
+	}
+
+	return nil
+}
+
+func (g *zzG10Graph) remaining() (n int) {
+	g.mu.Lock()
+	defer g.mu.Unlock()
+
+	for _, v := range g.Vecs {
+		if v.Target && !v.taken {
+			n++
+		}
+	}
+
+	return n
+}
+
+// match finds the admissible outcome the step realises.
+func (g *zzG10Graph) match(v *zzG10Vec, st zzG10Step) (dst int, ok bool) {
+	if st.Obs.Err != "" || len(st.Obs.EffBad) > 0 || st.Obs.Rep["_bad"] != nil || st.Obs.File["_bad"] != nil {
+		return 0, false
+	}
+
+	rep, file := zzG10CanonState(st.Obs.Rep), zzG10CanonState(st.Obs.File)
+	for _, o := range v.Outs {
+		if o.Cls == st.Cls && g.canon[o.Dst] == rep && g.canon[o.Dst] == file {
+			return o.Dst, true
+		}
+	}
+
+	return 0, false
+}
+
+// TestZZVerifG10Walk covers the target vectors of VERIF_G10_GRAPH with tours on
+// real deployments (VERIF_G10_PAR of them side by side).
+func TestZZVerifG10Walk(t *testing.T) {
+	if os.Getenv("VERIF_G10_GRAPH") == "" {
+		t.Skip("no VERIF_G10_GRAPH")
+	}
+
+	g := zzG10LoadGraph(t, "VERIF_G10_GRAPH")
+	out := zzNewWriter(t, "VERIF_G10_OUT")
+	defer out.close()
+
+	var omu sync.Mutex
+	put := func(v any) { omu.Lock(); out.put(v); omu.Unlock() }
+	deadline := time.Now().Add(time.Duration(zzG10EnvInt("VERIF_G10_BUDGET_S", 60)) * time.Second)
+	maxHist := zzG10EnvInt("VERIF_G10_MAXHIST", 120)
+	nPar := zzG10EnvInt("VERIF_G10_PAR", 4)
+	var wg sync.WaitGroup
+	for w := 0; w < nPar; w++ {
+		wg.Add(1)
+		go func(w int) {
+			defer wg.Done()
+
+			a := zzG10NewArena(t, w, zzSeed())
+			defer a.destroy()
+
+			cur := -1
+			var hist []zzG10Lab
+			fails := 0
+			for {
+				if cur < 0 {
+					if err := a.redeploy(); err != nil {
+						put(zzG10M{"kind": "rig", "err": "deploy: " + err.Error()})
+
+						return
+					}
+
+					o := a.observe()
+					st := zzG10Step{Cls: "init", Obs: o}
+					if _, ok := g.match(&zzG10Vec{Outs: []zzG10Out{{Cls: "init", Dst: g.Init}}}, st); !ok {
+						fails++
+						put(zzG10M{"kind": "rig", "err": "a fresh deployment does not show the initial settings", "obs": o})
+						if fails > 3 {
+							return
+						}
+
+						continue
+					}
+
+					cur, hist = g.Init, nil
+				}
+
+				v := g.pick(cur, a.rng, time.Now().After(deadline))
+				if v == nil {
+					if cur != g.Init && !time.Now().After(deadline) && g.remaining() > 0 {
+						cur = -1
+
+						continue
+					}
+
+					return
+				}
+
+				st := a.exec(v.Lab)
+				hist = append(hist, v.Lab)
+				dst, ok := g.match(v, st)
+				if ok {
+					put(zzG10M{"kind": "ok", "v": v.ID, "dst": dst, "cls": st.Cls, "n": len(hist)})
+					cur = dst
+					if len(hist) >= maxHist {
+						cur = -1
+					}
+
+					continue
+				}
+
+				put(zzG10M{"kind": "bad", "v": v.ID, "step": st, "hist": hist, "arena": w})
+				cur = -1
+			}
+		}(w)
+	}
+
+	wg.Wait()
+	put(zzG10M{"kind": "end", "remaining": g.remaining()})
+}
+
+// ------------------------------------------------------------- direction B
+
+// zzG10RandomLabel draws a label of the unbounded universe.  obs is the last
+// observation (used only to avoid labels the specification gives no outcome).
+func (a *zzG10Arena) randomLabel(rep zzG10M) (l zzG10Lab) {
+	good := map[string][]string{
+		"ups": {"A", "B"}, "boot": {"b0", "b1"}, "blk": {"default", "nxdomain", "refused", "null_ip", "custom1", "custom2"},
+		"blkttl": {"t10", "t77", "t3600"}, "prot": {"on", "off"}, "rl": {"20", "0", "77", "5"}, "rl4": {"24", "16", "32"},
+		"ecs": {"off", "on", "custom"}, "dnssec": {"off", "on"}, "noaaaa": {"off", "on"}, "csize": {"4m", "0", "64k"},
+		"cttl": {"0-0", "60-3600", "0-600"}, "upmode": {"lb", "parallel", "fastest"}, "lptr": {"none", "L"},
+		"useptr": {"off", "on"}, "uto": {"10", "3", "30"}, "fcfg": {"on-24", "off-24", "on-72", "on-0", "off-72", "on-168"},
+		"rules": {"none", "r1", "r12", "r2"}, "sb": {"off", "on"}, "par": {"off", "on"}, "ss": {"off", "all", "nogoogle"},
+		"svc": {"none", "s1", "s12", "s1p", "s2"}, "acc": {"none", "dis", "host", "allow"},
+		"qlog": {"def", "off", "anon", "ivl7", "ign", "ivl1"}, "stats": {"def", "off", "ivl7", "ign", "ivl30"},
+		"lang": {"en", "de", "fr"},
+	}
+	refused := []zzG10Lab{
+		{Op: "set", C: "blk", V: "bogus"}, {Op: "set", C: "rl4", V: "33"}, {Op: "set", C: "upmode", V: "bogus"},
+		{Op: "set", C: "uto", V: "0"}, {Op: "set", C: "fcfg", V: "on-5"}, {Op: "set", C: "fcfg", V: "off-5"},
+		{Op: "set", C: "svc", V: "badsched"}, {Op: "set", C: "acc", V: "dup"}, {Op: "set", C: "acc", V: "both"},
+		{Op: "set", C: "qlog", V: "noenabled"}, {Op: "set", C: "stats", V: "noenabled"}, {Op: "set", C: "lang", V: "xx"},
+		{Op: "set", C: "ups", V: "bad"}, {Op: "set", C: "boot", V: "bad"}, {Op: "set", C: "cttl", V: "3600-60"},
+		{Op: "profile", V: "xx", W: "dark"}, {Op: "profile", V: "de", W: "pink"},
+	}
+	comps := make([]string, 0, len(good))
+	for c := range good {
+		comps = append(comps, c)
+	}
+
+	sort.Strings(comps)
+	pick := func(l []string) string { return l[a.rng.Intn(len(l))] }
+	change := func() zzG10Lab {
+		switch n := a.rng.Intn(100); {
+		case n < 55:
+			c := pick(comps)
+
+			return zzG10Lab{Op: "set", C: c, V: pick(good[c])}
+		case n < 63:
+			return zzG10Lab{Op: pick([]string{"ls_add", "ls_add", "ls_rm"}), V: pick([]string{"L1", "L2"})}
+		case n < 67:
+			return zzG10Lab{Op: "ls_set", V: pick([]string{"L1", "L2"}), W: pick([]string{"on", "off"})}
+		case n < 74:
+			return zzG10Lab{Op: pick([]string{"rw_add", "rw_add", "rw_del"}), V: pick([]string{"r1", "r2", "r3"})}
+		case n < 77:
+			return zzG10Lab{Op: "rw_upd", V: pick([]string{"r1", "r2", "r3"}), W: pick([]string{"r1", "r2", "r3"})}
+		case n < 85:
+			return zzG10Lab{Op: pick([]string{"cl_add", "cl_add", "cl_upd"}), V: pick([]string{"c1", "c2"}), W: pick([]string{"a", "b"})}
+		case n < 88:
+			return zzG10Lab{Op: "cl_del", V: pick([]string{"c1", "c2"})}
+		case n < 91:
+			return zzG10Lab{Op: pick([]string{"ss_enable", "ss_disable"})}
+		case n < 94:
+			if s, _ := rep["svc"].(string); s == "s1p" {
+				return zzG10Lab{Op: "set", C: "svc", V: "none"}
+			}
+
+			return zzG10Lab{Op: "svc_legacy", V: pick([]string{"none", "s1", "s12"})}
+		default:
+			return zzG10Lab{Op: "profile", V: pick(good["lang"]), W: pick([]string{"auto", "dark", "light"})}
+		}
+	}
+
+	switch n := a.rng.Intn(100); {
+	case n < 68:
+		return change()
+	case n < 80:
+		if a.rng.Intn(4) == 0 {
+			eps := make([]string, 0, len(zzG10Malformed))
+			for e := range zzG10Malformed {
+				eps = append(eps, e)
+			}
+
+			sort.Strings(eps)
+
+			return zzG10Lab{Op: "malformed", C: pick(eps)}
+		}
+
+		return refused[a.rng.Intn(len(refused))]
+	case n < 88:
+		return zzG10Lab{Op: "restart"}
+	case n < 94:
+		return zzG10Lab{Op: "crash"}
+	default:
+		c := change()
+
+		return zzG10Lab{Op: "crashduring", X: c.Op, C: c.C, V: c.V, W: c.W}
+	}
+}
+
+// TestZZVerifG10Trace records seeded random histories for TracePersist.tla.
+func TestZZVerifG10Trace(t *testing.T) {
+	if os.Getenv("VERIF_G10_TRACE") == "" {
+		t.Skip("no VERIF_G10_TRACE")
+	}
+
+	out := zzNewWriter(t, "VERIF_G10_TRACE")
+	defer out.close()
+
+	nHist := zzG10EnvInt("VERIF_G10_HISTORIES", 8)
+	length := zzG10EnvInt("VERIF_G10_LENGTH", 60)
+	nPar := zzG10EnvInt("VERIF_G10_PAR", 4)
+	deadline := time.Now().Add(time.Duration(zzG10EnvInt("VERIF_G10_BUDGET_S", 60)) * time.Second)
+	var mu sync.Mutex
+	next := 0
+	var wg sync.WaitGroup
+	for w := 0; w < nPar; w++ {
+		wg.Add(1)
+		go func(w int) {
+			defer wg.Done()
+
+			a := zzG10NewArena(t, 50+w, zzSeed())
+			defer a.destroy()
+
+			for {
+				mu.Lock()
+				h := next
+				next++
+				mu.Unlock()
+				if h >= nHist || time.Now().After(deadline) {
+					return
+				}
+
+				a.rng = rand.New(rand.NewSource(zzSeed()*100003 + int64(h)))
+				var rows []any
+				if err := a.redeploy(); err != nil {
+					rows = append(rows, zzG10M{"h": h, "i": 0, "ev": "rig", "err": err.Error()})
+				} else {
+					o := a.observe()
+					rows = append(rows, zzG10M{"h": h, "i": 0, "ev": "reset", "lab": zzG10Lab{Op: "init"}, "cls": "init",
+						"rep": o.Rep, "file": o.File, "effbad": o.EffBad, "err": o.Err})
+					rep := o.Rep
+					for i := 1; i <= length && !time.Now().After(deadline); i++ {
+						l := a.randomLabel(rep)
+						st := a.exec(l)
+						nz := func(m zzG10M) zzG10M {
+							if m == nil {
+								return zzG10M{}
+							}
+
+							return m
+						}
+						eb := st.Obs.EffBad
+						if eb == nil {
+							eb = []string{}
+						}
+
+						errs := st.Obs.Err
+						if st.Obs.Rep == nil && errs == "" {
+							errs = "no observation: " + st.Cls
+						}
+
+						rows = append(rows, zzG10M{"h": h, "i": i, "ev": "step", "lab": l, "cls": st.Cls, "code": st.Code,
+							"rep": nz(st.Obs.Rep), "file": nz(st.Obs.File), "effbad": eb, "err": errs, "body": st.Body})
+						if st.Obs.Rep == nil {
+							break
+						}
+
+						rep = st.Obs.Rep
+					}
+				}
+
+				mu.Lock()
+				for _, r := range rows {
+					out.put(r)
+				}
+				mu.Unlock()
+			}
+		}(w)
+	}
+
+	wg.Wait()
 }
